@@ -198,11 +198,10 @@ class GFunction:
         if abs(h_eq - min(height_values)) < close_tolerance:
             h_eq = min(height_values)
 
-        if min(height_values) <= h_eq <= max(height_values) or abs(min(height_values) - h_eq) < tolerance:
-            fill_value = ""
-        else:
-            fill_value = "extrapolate"
+        if not (min(height_values) <= h_eq <= max(height_values) or abs(min(height_values) - h_eq) < tolerance):
             warnings.warn("Extrapolation is being used.")
+        # the interpolation table is built on the first query and serves every later one, in range or not
+        fill_value = "extrapolate"
 
         # if the interpolation kind is default, use what we know about the
         # accuracy of interpolation to choose a technique
